@@ -4,7 +4,7 @@ Everything is regenerated from /repo's current working tree on every run: the ha
 /verif/harness/incrate are compiled *inside* the crate by Kani (rustc MIR -> CBMC goto program),
 CBMC unrolls to the stated bounds and CaDiCaL decides.  See DESIGN.md.
 """
-import json, os, re, subprocess, sys, time, resource, shutil, hashlib
+import json, os, re, subprocess, sys, time, shutil
 
 VERIF = os.path.dirname(os.path.dirname(os.path.abspath(__file__)))
 REPO = os.environ.get("VERIF_REPO", "/repo")
@@ -26,25 +26,54 @@ def log(*a):
     print(*a, flush=True)
 
 
-def sh(cmd, env=None, timeout=None, cwd=None, mem_gb=None):
-    def pre():
-        os.setsid()
-        if mem_gb:
-            lim = int(mem_gb * (1 << 30))
-            resource.setrlimit(resource.RLIMIT_AS, (lim, lim))
-    t0 = time.time()
-    p = subprocess.Popen(cmd, env=env, cwd=cwd, stdout=subprocess.PIPE, stderr=subprocess.STDOUT,
-                         text=True, errors="replace", preexec_fn=pre)
+def _rss_of_group(pgid):
+    """max RSS (GB) of any single process in the process group, and its pid"""
     try:
-        out, _ = p.communicate(timeout=timeout)
-        rc = p.returncode
-    except subprocess.TimeoutExpired:
-        try:
-            os.killpg(p.pid, 9)
-        except Exception:
-            pass
-        out, _ = p.communicate()
-        rc = -9
+        out = subprocess.run(["ps", "-eo", "pid,pgid,rss,comm"], capture_output=True, text=True).stdout
+    except Exception:
+        return 0.0, None
+    worst, wpid = 0.0, None
+    for line in out.splitlines()[1:]:
+        f = line.split()
+        if len(f) >= 4 and f[1] == str(pgid):
+            g = int(f[2]) / (1 << 20)
+            if g > worst:
+                worst, wpid = g, int(f[0])
+    return worst, wpid
+
+
+def sh(cmd, env=None, timeout=None, cwd=None, mem_gb=None):
+    """Run a command in its own process group with a wall-clock cap and a per-process RSS cap
+    (a process above the cap is killed; Kani then reports that harness as 'CBMC failed')."""
+    t0 = time.time()
+    logf = os.path.join(BUILD, f"sh_{os.getpid()}_{int(t0 * 1000) % 100000000}.out")
+    os.makedirs(BUILD, exist_ok=True)
+    with open(logf, "w") as fh:
+        p = subprocess.Popen(cmd, env=env, cwd=cwd, stdout=fh, stderr=subprocess.STDOUT, preexec_fn=os.setsid)
+        rc = None
+        while True:
+            try:
+                rc = p.wait(timeout=5)
+                break
+            except subprocess.TimeoutExpired:
+                pass
+            if timeout and time.time() - t0 > timeout:
+                try:
+                    os.killpg(p.pid, 9)
+                except Exception:
+                    pass
+                p.wait()
+                rc = -9
+                break
+            if mem_gb:
+                g, pid = _rss_of_group(p.pid)
+                if g > mem_gb and pid:
+                    try:
+                        os.kill(pid, 9)
+                    except Exception:
+                        pass
+    out = open(logf, errors="replace").read()
+    os.unlink(logf)
     return rc, out, time.time() - t0
 
 
